@@ -5,6 +5,7 @@
 mod interpose;
 mod util;
 mod world;
+mod timed;
 #[cfg(not(feature = "force-inprocess"))]
 mod crash;
 #[cfg(not(feature = "force-inprocess"))]
@@ -32,6 +33,7 @@ fn main() {
     }
     match args[1].as_str() {
         "world" => world::run(&args[2..]),
+        "timed" => timed::run(&args[2..]),
         #[cfg(not(feature = "force-inprocess"))]
         "frag" => frag::run(&args[2..]),
         #[cfg(not(feature = "force-inprocess"))]
